@@ -196,8 +196,8 @@ def rsiCore (N : Nat) : Core α where
         let oldVal ← front s.q
         let change := oldVal - s.oldRef
         let s := { s with oldRef := oldVal, q := s.q.tail }
-        pure (if nat 0 < change then { s with avgGain := s.avgGain - change / wl }
-              else { s with avgLoss := s.avgLoss - absv change / wl })) else pure s
+        pure (if nat 0 < change then { s with avgGain := maxv (s.avgGain - change / wl) (nat 0) }
+              else { s with avgLoss := maxv (s.avgLoss - absv change / wl) (nat 0) })) else pure s
     let s := { s with q := s.q ++ [v] }
     let change := v - s.lastVal
     let s := { s with lastVal := v }
@@ -232,8 +232,8 @@ def myRsiCore (N : Nat) : Core α where
     let s ← if N ≤ s.q.length then (do
         let (oldVal, rest) ← popFront s.q
         let s := { s with q := rest }
-        let s := if s.oldestVal < oldVal then { s with cu := s.cu - (oldVal - s.oldestVal) }
-                 else { s with cd := s.cd - (s.oldestVal - oldVal) }
+        let s := if s.oldestVal < oldVal then { s with cu := maxv (s.cu - (oldVal - s.oldestVal)) (nat 0) }
+                 else { s with cd := maxv (s.cd - (s.oldestVal - oldVal)) (nat 0) }
         pure { s with oldestVal := oldVal }) else pure s
     let s := { s with q := s.q ++ [v] }
     let s := if s.lastVal < v then { s with cu := s.cu + v - s.lastVal }
